@@ -82,9 +82,9 @@ def run(ctx):
         ix = hq.Index(rb)
         got = {}
         for a in asg:
-            cs = [c for c in dom.conds(ix, a, ("if", "else")) if "% 2" in c]
+            cs = [c for c in dom.conds(ix, a, ("if", "else")) if "% 2" in c or "& 1)" in c or "(1 & " in c]      # idx % 2, in normal form idx & 1
             got["even" if any(c.startswith("(0 == ") or c.endswith("== 0)") for c in cs) and not any(c.startswith("!") or "!=" in c for c in cs) else "odd"] = H.show(hq.peel(a["r"]))
-        want = {"even": "(weights_raw[((idx as usize) / 2)] >> 4)", "odd": "(weights_raw[((idx as usize) / 2)] & 15)"}
+        want = {"even": "(weights_raw[((idx as usize) >> 1)] >> 4)", "odd": "(weights_raw[((idx as usize) >> 1)] & 15)"}
         ctx.check(got == want, RH, "reader::nibble-order", rb["file"], "even weights in the high nibble, odd weights in the low nibble", observed=got, expected=want)
         # FSE path: header bytes available, two decoders alternate starting with the first
         fse = arms[0][2]
@@ -126,7 +126,7 @@ def run(ctx):
         ctx.check(ok, RH, "writer::fse-size-byte", wb["file"], "FSE path: placeholder byte first, compressed length asserted < 128 and back-patched into it",
                   observed=seq2)
         el = H.show(hq.peel([x for x in hq.find(fse_b, lambda x: x.get("k") == "LetStmt" and x["pat"].get("name") == "encoded_len")][0]["init"]))
-        ctx.check(el == "((self.writer.index() - idx_before) / 8)", RH, "writer::fse-length-counts-table-and-stream", wb["file"],
+        ctx.check(el == "((self.writer.index() - idx_before) >> 3)", RH, "writer::fse-length-counts-table-and-stream", wb["file"],
                   "the size byte covers the table description and the compressed weights", observed=el)
         lw = [x for x in hq.find(wb["body"], lambda x: x.get("k") == "LetStmt" and x["pat"].get("name") == "weights")]
         ctx.check(len(lw) == 2 and H.PRETTY_RANGES is False and "weights.len() - 1" in H.show(lw[1]["init"]), RH, "writer::last-weight-omitted", wb["file"],
@@ -150,8 +150,8 @@ def run(ctx):
             lets = {x["pat"]["name"]: H.show(hq.peel(x["init"])) for x in hq.find(b["body"], lambda x: x.get("k") == "LetStmt" and x["pat"].get("k") == "Bind" and x.get("init"))}
         finally:
             H.PRETTY_RANGES = False
-        want = {"split_size": "data.len().div_ceil(4)", "src1": "&data[..split_size]", "src2": "&data[split_size..(split_size * 2)]",
-                "src3": "&data[(split_size * 2)..(split_size * 3)]", "src4": "&data[(split_size * 3)..]"}
+        want = {"split_size": "data.len().div_ceil(4)", "src1": "&data[..split_size]", "src2": "&data[split_size..(split_size << 1)]",
+                "src3": "&data[(split_size << 1)..(split_size * 3)]", "src4": "&data[(split_size * 3)..]"}
         ctx.check({k: lets.get(k) for k in want} == want, RS, "encode4x::split", b["file"], "four parts of ceil(len/4) bytes, the last takes the rest",
                   observed={k: lets.get(k) for k in want}, expected=want)
         ev = []
@@ -169,7 +169,7 @@ def run(ctx):
         ctx.check(vals == [("(size1 as u16)", 16), ("(size2 as u16)", 16), ("(size3 as u16)", 16)], RS, "encode4x::sizes", b["file"],
                   "jump table entries are the byte sizes of streams 1-3 as 16-bit little-endian values", observed=vals)
         sz = {k: lets.get(k) for k in ("size1", "size2", "size3")}
-        ctx.check(all(v == "((self.writer.index() - index_before) / 8)" for v in sz.values()), RS, "encode4x::size-measured-per-stream", b["file"],
+        ctx.check(all(v == "((self.writer.index() - index_before) >> 3)" for v in sz.values()), RS, "encode4x::size-measured-per-stream", b["file"],
                   "each size is measured around its own stream", observed=sz)
         si = [x for x in hq.find(b["body"], lambda x: x.get("k") == "LetStmt" and x["pat"].get("name") == "size_idx")]
         wbs = [x for x in hq.find(b["body"], lambda x: x.get("k") == "MethodCall" and x["name"] == "write_bits")]
